@@ -31,6 +31,11 @@ const smtPrelude = `(set-option :produce-models true)
 (declare-fun seedF (Ifc) Bool)
 (declare-fun strlen (Int) Int)
 (declare-fun MUL (Int Int) Int)
+(assert (forall ((x Int) (z Int) (y Int)) (! (=> (and (< x z) (> y 0)) (<= (+ (MUL x y) y) (MUL z y))) :pattern ((MUL x y) (MUL z y)))))
+(assert (forall ((y Int)) (! (= (MUL 0 y) 0) :pattern ((MUL 0 y)))))
+(assert (forall ((y Int)) (! (= (MUL 1 y) y) :pattern ((MUL 1 y)))))
+(assert (forall ((x Int) (y Int)) (! (=> (and (>= x 0) (>= y 0)) (>= (MUL x y) 0)) :pattern ((MUL x y)))))
+(assert (forall ((x Int) (y Int)) (! (=> (and (>= x 1) (>= y 0)) (>= (MUL x y) y)) :pattern ((MUL x y)))))
 `
 
 func app(op string, args ...string) string {
